@@ -2,8 +2,8 @@ SPECIFICATION Spec
 CONSTANTS
   Devs <- DevAll
   Ops <- OpsContent
-  ByteStrings <- BytesThorough
-  NumSeqs <- NumsQuick
+  ByteStrings <- BytesTwo
+  NumSeqs <- NumsTwo
   NewObjs <- MCNewObjs
   MaxDepth = 5
   Starts <- StartsContent
